@@ -33,7 +33,7 @@ type c13L struct {
 }
 
 func init() {
-	steps := []string{"sessionless", "discovery", "open", "rakp1", "rakp3", "insession", "close", "sdr-info", "sdr-reserve", "sdr-get1", "sdr-get2", "sdr-get3", "sdr-get4", "sdr-final", "wrongpw", "close2", "after-expired", "suites-idx1", "suites-idx2", "sensor-read", "dcmi-enum", "suites-again"}
+	steps := []string{"sessionless", "discovery", "open", "rakp1", "rakp3", "insession", "close", "sdr-info", "sdr-reserve", "sdr-get1", "sdr-get2", "sdr-get3", "sdr-get4", "sdr-final", "wrongpw", "close2", "after-expired", "suites-idx1", "suites-idx2", "sensor-read", "dcmi-enum", "suites-again", "after-long-ctx"}
 	faults := []string{"blackhole", "late", "garbage", "tempcode", "trunc", "ffrun", "drop-once", "repo-modified", "runts", "close-inflight"}
 	register(&Check{
 		ID:      "C13",
@@ -55,7 +55,7 @@ func init() {
 							continue // the repository can only change under a retrieval
 						}
 						if tier == "quick" && (fi+ri+len(st))%3 != int(seed%3+3)%3 && !(f == "repo-modified" && ri != 2 && st == "sdr-get3") && !(st == "wrongpw" && f == "blackhole" && ri < 2) && !(f == "drop-once" && ri == 2 && (st == "sdr-get2" || st == "sdr-get4" || st == "discovery")) &&
-							!((st == "suites-idx1" || st == "suites-idx2" || st == "suites-again") && (f == "blackhole" && ri != 1 || f == "tempcode" && ri == 2 || f == "garbage" && ri == 2)) {
+							!((st == "suites-idx1" || st == "suites-idx2" || st == "suites-again" || st == "after-long-ctx") && (f == "blackhole" && ri != 1 || f == "tempcode" && ri == 2 || f == "garbage" && ri == 2)) {
 							continue
 						}
 						cs = append(cs, ev.MkCase("udp", c13P{Step: st, Fault: f, Timeout: rt[0], Deadline: rt[1], Seed: seed}))
@@ -156,6 +156,10 @@ func c13Match(step string, b *refbmc.BMC, getCount *int) bool {
 		return e.Kind == "sessionless-ipmi" && e.Cmd == 0x37
 	case "discovery":
 		return e.Kind == "sessionless-ipmi" && e.Cmd == 0x54
+	case "after-long-ctx":
+		// an earlier call on this connection was made under a context that is still alive (getCount
+		// is set past 1000 once it has returned); the measured call has its own, shorter one
+		return e.Kind == "sessionless-ipmi" && e.Cmd == 0x37 && *getCount >= 1000
 	case "suites-again":
 		// an enumeration has completed on this connection before (getCount is set past 1000 then);
 		// every request of the next one meets the fault
@@ -376,6 +380,15 @@ func c13UDP(run *ev.Run, p c13P, cs ev.Case) (string, func()) {
 		}
 		getCount = 1000
 	}
+	if p.Step == "after-long-ctx" {
+		c0, cancel0 := context.WithTimeout(context.Background(), 90*time.Second)
+		defer cancel0() // stays alive for the whole case
+		if _, err0 := st.GetSystemGUID(c0); err0 != nil {
+			run.Violation("C13:setup", fmt.Sprintf("fault-free Get System GUID failed: %v", err0), cs, nil)
+			return "violated", nil
+		}
+		getCount = 1000
+	}
 	validBefore := validSent
 	if p.Step == "dead-port-sessionless" || p.Step == "dead-port-open" {
 		srv.Close() // from here on the kernel answers the console's datagrams with ICMP port unreachable
@@ -405,7 +418,7 @@ func c13UDP(run *ev.Run, p c13P, cs ev.Case) (string, func()) {
 		defer close(done)
 		pv, stk = safe(func() {
 			switch p.Step {
-			case "sessionless", "after-expired", "dead-port-sessionless":
+			case "sessionless", "after-expired", "dead-port-sessionless", "after-long-ctx":
 				_, callErr = st.GetSystemGUID(ctx)
 			case "discovery", "open", "rakp1", "rakp3", "wrongpw", "dead-port-open":
 				_, callErr = st.NewV2Session(ctx, opts)
@@ -585,6 +598,15 @@ func c13Mem(run *ev.Run, l c13L, cs ev.Case) {
 		}
 		getCount = 1000
 	}
+	if l.Step == "after-long-ctx" {
+		c0, cancel0 := context.WithTimeout(context.Background(), 25*time.Second)
+		defer cancel0()
+		if _, err0 := st.GetSystemGUID(c0); err0 != nil {
+			run.Violation("C13:setup", fmt.Sprintf("fault-free Get System GUID failed: %v", err0), cs, nil)
+			return
+		}
+		getCount = 1000
+	}
 	validBefore := validReplies
 	callerDeadline := time.Now().Add(20 * time.Second)
 	if l.Fault == "expired" {
@@ -598,7 +620,7 @@ func c13Mem(run *ev.Run, l c13L, cs ev.Case) {
 	var callErr error
 	pv, stk := safe(func() {
 		switch l.Step {
-		case "sessionless", "after-expired":
+		case "sessionless", "after-expired", "after-long-ctx":
 			_, callErr = st.GetSystemGUID(ctx)
 		case "discovery", "open", "rakp1", "rakp3", "wrongpw":
 			_, callErr = st.NewV2Session(ctx, opts)
